@@ -33,6 +33,10 @@ def exists(f, lo=None, hi=None):
     return any(f(k) for k in range(lo, hi))
 
 
+def exists_split(f, s):
+    return any(f(s[:k], s[k:]) for k in range(len(s) + 1))
+
+
 def typeis(x, name):
     return type(x).__name__ == name
 
@@ -140,7 +144,8 @@ def generic(rec):
     params = {k: b.value(v) for k, v in inp['params'].items()}
     ct = rec['contract']
     glob = dict(vars(spec))
-    glob.update(implies=implies, forall=forall, exists=exists, typeis=typeis)
+    glob.update(implies=implies, forall=forall, exists=exists, typeis=typeis,
+                exists_split=exists_split)
     # the concretised input must satisfy the precondition, else the model does not transfer
     for lab, src in ct['requires']:
         try:
